@@ -29,12 +29,13 @@ func isCow(t types.Type) bool { return isNamed(t, "mutable", "CopyOnWriteMap") }
 func CowLockset(c *core.Ctx, rule string) {
 	c.Rule(rule, "every Store on the snapshot cell of a CopyOnWriteMap happens with the map's mutex held, and every exit of a locking method releases it (deferred or explicit)")
 	n := 0
+	entryHeld, entryDef := cowEntryLocks(c)
 	for _, fn := range srcFuncs(c) {
 		top := topFunc(fn)
 		if top.Signature.Recv() == nil || !isCow(top.Signature.Recv().Type()) {
 			continue
 		}
-		lf := analyzeLocks(fn)
+		lf := analyzeLocksFrom(fn, entryHeld[fn], entryDef[fn])
 		name := fnName(fn)
 		for _, b := range fn.Blocks {
 			for _, ins := range b.Instrs {
@@ -350,9 +351,40 @@ func CowRMW(c *core.Ctx, rule string) {
 			}
 		}
 	}
+	// receiver methods that store one of their parameters into the cell (publish(nm) { r.value.Store(nm) })
+	storers := map[*types.Func][]int{}
+	for _, fn := range methods {
+		for _, b := range fn.Blocks {
+			for _, ins := range b.Instrs {
+				call, ok := ins.(*ssa.Call)
+				if !ok {
+					continue
+				}
+				callee := call.Call.StaticCallee()
+				if callee == nil || callee.Pkg == nil || callee.Pkg.Pkg.Path() != "sync/atomic" || callee.Signature.Recv() == nil || (callee.Name() != "Store" && callee.Name() != "Swap" && callee.Name() != "CompareAndSwap") {
+					continue
+				}
+				for pi, p := range fn.Params {
+					if pi == 0 {
+						continue
+					}
+					to := map[ssa.Value]bool{}
+					for _, a := range call.Call.Args[1:] {
+						to[a] = true
+					}
+					if flows(p, to) {
+						if o, ok := fn.Object().(*types.Func); ok {
+							storers[o.Origin()] = append(storers[o.Origin()], pi)
+						}
+					}
+				}
+			}
+		}
+	}
+	entryHeld, entryDef := cowEntryLocks(c)
 	n := 0
 	for _, fn := range methods {
-		lf := analyzeLocks(fn)
+		lf := analyzeLocksFrom(fn, entryHeld[fn], entryDef[fn])
 		stored := map[ssa.Value]bool{}
 		hasStore := false
 		for _, b := range fn.Blocks {
@@ -363,6 +395,14 @@ func CowRMW(c *core.Ctx, rule string) {
 						hasStore = true
 						for _, a := range call.Call.Args[1:] {
 							stored[a] = true
+						}
+					}
+					if cf := calleeFunc(&call.Call); cf != nil {
+						for _, pi := range storers[cf] {
+							if pi < len(call.Call.Args) {
+								hasStore = true
+								stored[call.Call.Args[pi]] = true
+							}
 						}
 					}
 				}
@@ -656,3 +696,89 @@ func CowOnePublish(c *core.Ctx, rule string) {
 }
 
 func instrPosString(c *core.Ctx, ins ssa.Instruction) string { return c.RelPos(instrPos(ins)) }
+
+// cowEntryLocks: unexported methods of CopyOnWriteMap that are only ever called, on the same receiver, from methods
+// (or their literals) that hold the map's mutex run inside their callers' critical sections. The result maps such a
+// helper to the locks held / deferred unlocks registered at every one of its call sites (keys use the helper's own
+// receiver name).
+func cowEntryLocks(c *core.Ctx) (map[*ssa.Function]lockSet, map[*ssa.Function]lockSet) {
+	var all []*ssa.Function
+	byObj := map[*types.Func]*ssa.Function{}
+	for _, fn := range srcFuncs(c) {
+		top := topFunc(fn)
+		if top.Signature.Recv() == nil || !isCow(top.Signature.Recv().Type()) {
+			continue
+		}
+		all = append(all, fn)
+		if fn.Parent() == nil {
+			if o, ok := fn.Object().(*types.Func); ok {
+				byObj[o.Origin()] = fn
+			}
+		}
+	}
+	held := map[*ssa.Function]lockSet{}
+	def := map[*ssa.Function]lockSet{}
+	rename := func(s lockSet, to string) lockSet {
+		out := lockSet{}
+		for k := range s {
+			if strings.HasPrefix(k, "field:") {
+				if i := strings.Index(k, "."); i > 0 {
+					out["field:"+to+k[i:]] = true
+					continue
+				}
+			}
+			out[k] = true
+		}
+		return out
+	}
+	for round := 0; round < 3; round++ {
+		type acc struct {
+			h, d  lockSet
+			n     int
+			other bool
+		}
+		accs := map[*ssa.Function]*acc{}
+		for _, fn := range all {
+			// a literal inherits nothing by itself; analyse it from its own start (locks taken inside it)
+			lf := analyzeLocksFrom(fn, held[fn], def[fn])
+			for _, b := range fn.Blocks {
+				for _, ins := range b.Instrs {
+					call, ok := ins.(*ssa.Call)
+					if !ok {
+						continue
+					}
+					cf := calleeFunc(&call.Call)
+					if cf == nil {
+						continue
+					}
+					h := byObj[cf]
+					if h == nil || token.IsExported(h.Name()) {
+						continue
+					}
+					a := accs[h]
+					if a == nil {
+						a = &acc{}
+						accs[h] = a
+					}
+					rname := "r"
+					if len(h.Params) > 0 {
+						rname = h.Params[0].Name()
+					}
+					hs, ds := rename(lf.held[ins], rname), rename(lf.deferred[ins], rname)
+					if a.n == 0 {
+						a.h, a.d = hs, ds
+					} else {
+						a.h, a.d = intersect(a.h, hs), intersect(a.d, ds)
+					}
+					a.n++
+				}
+			}
+		}
+		for h, a := range accs {
+			if a.n > 0 {
+				held[h], def[h] = a.h, a.d
+			}
+		}
+	}
+	return held, def
+}
